@@ -17,7 +17,7 @@ RULE = ("(a) every document of a reference-heavy family and the repository's bas
         "scheduling: under the VSet loader every iterated set of >=2 elements is re-ordered (all permutations up to 4 elements, "
         "adjacent swaps + reversal + rotation above), one deviation at a time (thorough: also pairs), every byte difference "
         "confirmed with real hash seeds before it is reported; (c) all permutations of components.schemas (<=4 names permuted) "
-        "and paths (<=3) of every family document that generates without diagnostics; the family includes unions with repeated members after flattening, component unions with an inline member before a forward reference, one model as body under three media types, siblings re-declaring an inherited property; oracle: byte-identical trees; one operation answering with classes that differ only in case, operations under different tags whose module names coincide, the same enum class under another value order (string and integer members) or described differently at each use, class names and literal values differing only in case, children promoting several inherited properties, 3.0 nullable wrappers around forward references")
+        "and paths (<=3) of every family document that generates without diagnostics; the family includes unions with repeated members after flattening, component unions with an inline member before a forward reference, one model as body under three media types, siblings re-declaring an inherited property; oracle: byte-identical trees; tuple-like arrays (prefixItems + items) as components before / after their item target and as a shared path-item parameter, one operation answering with classes that differ only in case, operations under different tags whose module names coincide, the same enum class under another value order (string and integer members) or described differently at each use, class names and literal values differing only in case, children promoting several inherited properties, 3.0 nullable wrappers around forward references")
 FLOOR = 0.5
 CASE_LIMIT = 600
 ASSUMPTIONS = ["VSet models hash order as a function of the set's contents; a model-level difference is only a candidate until two real interpreters reproduce it",
@@ -154,6 +154,12 @@ def family():
         paths={"/users": {"get": {"operationId": "listAll", "tags": ["users"], "responses": jr("U")}},
                "/groups": {"get": {"operationId": "list_all", "tags": ["groups"], "parameters": [{"name": "q", "in": "query", "schema": {"type": "string"}}], "responses": jr("G")}},
                "/roles": {"get": {"operationId": "LIST-ALL", "tags": ["roles", "users2"], "responses": jr("R")}}})
+    # 3.1 tuple-like arrays (prefixItems + items): a component declared before / after what its items reference, a path-item parameter
+    # shared by three operations (the schema object is parsed once per use)
+    tup = lambda items: {"type": "array", "prefixItems": [{"type": "string"}, {"type": "integer"}], "items": items}  # noqa: E731
+    F["tuple-arrays"] = gen.base_doc({"Arr": tup(ref("Later")), "Later": obj(x={"type": "integer"}), "Holder": obj(a=ref("Arr"), inline=tup({"type": "boolean"})), "Plain": tup({"type": "number"})},
+        paths={"/x": {"parameters": [{"name": "q", "in": "query", "schema": tup({"type": "boolean"})}],
+                      "get": {"operationId": "a1", "responses": jr("Holder")}, "post": {"operationId": "a2", "responses": jr("Holder")}, "put": {"operationId": "a3", "responses": jr("Plain")}}})
     # literal enums whose values differ only in case
     F["literal-enum-case"] = (gen.base_doc({"Unit": {"type": "string", "enum": ["m", "M", "mm", "Mm", "MM", "k", "K"]}, "Holder": obj(u=ref("Unit"), v={"type": "string", "enum": ["a", "A", "b", "B"]})}),
                               {"literal_enums": True})
